@@ -51,6 +51,8 @@ type Ctx struct {
 	notes        []string
 	findings     []Finding
 	replayN      int
+	isSub        bool
+	rawViol      []rawViolation
 	ReplayPath   string
 }
 
@@ -165,7 +167,13 @@ func (c *Ctx) Sample(v any) {
 }
 
 func (c *Ctx) Assume(s string) { c.mu.Lock(); c.assumptions = append(c.assumptions, s); c.mu.Unlock() }
-func (c *Ctx) Note(s string)   { c.mu.Lock(); c.notes = append(c.notes, s); c.mu.Unlock() }
+func (c *Ctx) Note(s string) {
+	c.mu.Lock()
+	if len(c.notes) < 30 {
+		c.notes = append(c.notes, s)
+	}
+	c.mu.Unlock()
+}
 
 func (c *Ctx) Inconclusive(why string) {
 	c.mu.Lock()
@@ -182,6 +190,14 @@ func (c *Ctx) Inconclusive(why string) {
 func (c *Ctx) Violation(sig, detail string, files map[string][]byte) {
 	c.mu.Lock()
 	defer c.mu.Unlock()
+	if c.isSub {
+		// inside a child: ship to the parent, which applies findings and writes witnesses
+		c.violSigs[sig]++
+		if c.violSigs[sig] <= 3 && len(c.rawViol) < 40 {
+			c.rawViol = append(c.rawViol, rawViolation{sig, detail, files})
+		}
+		return
+	}
 	if f := matchFinding(c.findings, c.Prop, sig); f != nil && f.Status == "open" {
 		c.known[sig]++
 		return
